@@ -39,7 +39,7 @@ ASSUMPTIONS = [
     "pyahocorasick itself implements substring search correctly (its word sets and values are read back, its matching is trusted)",
 ]
 
-A13 = docspace.A0 + ["ſupra", "İd. at 5", "ıd. at 5", "ſee Foo", "SUPRA", "IBID.", "id., at 3", "AFF'D", "1 f.2D 2", "1 U. S. 1", "K", "1 u.s. 1"]
+A13 = docspace.A0 + ["5 S.E.\u00a02d 7", "410 F.\u2007Supp. 113", "12 Cal.\u202fApp. 345", "ſupra", "İd. at 5", "ıd. at 5", "ſee Foo", "SUPRA", "IBID.", "id., at 3", "AFF'D", "1 f.2D 2", "1 U. S. 1", "K", "1 u.s. 1"]
 DEPTH = {"quick": 2, "thorough": 3}
 SUB_ALPHA = ["1 U.S. 1", " ", "Id. at 5", "Foo, supra", "2 F.2d 2", "1 U.S. at 5", "See ", "§ 3", "\n", "Foo v. Bar, ", "1 Minn. L. Rev. 1", "3 Thompson 4", "ſupra", "hello"]
 SALIENT = ["0", "a", "Z", " ", ".", ",", "§", "\n", "é", "٣", "\xa0", "ſ", "İ", "ı", "K", " ", "-", "_"]
